@@ -745,6 +745,29 @@ func (ex *Exec) appendOp(fr *frame, fn *ssa.Builtin, args []V, pos token.Pos) V 
 			panic(abortPath{"append to symbolic-length slice"})
 		}
 	}
+	// bytes of object cells (e.g. the raw bytes of strings) appended to a byte slice: keep whole cells
+	if sizeof(et) == 1 && !isNumCellBuf(src.B) {
+		cw := src.B.cellW
+		so, ok := ex.constInt(src.Off)
+		if !ok || int(so)%cw != 0 || int(sn)%cw != 0 || int(dn)%cw != 0 || (dst.B != nil && dn > 0 && (isNumCellBuf(dst.B) || dst.B.cellW != cw)) {
+			panic(abortPath{"append of object-cell bytes that are not whole cells"})
+		}
+		ex.bufID++
+		nb := &Buf{id: ex.bufID, cellW: cw, what: src.B.what}
+		if dn > 0 {
+			do, ok := ex.constInt(dst.Off)
+			if !ok || int(do)%cw != 0 {
+				panic(abortPath{"append of object-cell bytes: unaligned destination"})
+			}
+			for i := 0; i < int(dn)/cw; i++ {
+				nb.cells = append(nb.cells, ex.copyV(dst.B.cells[int(do)/cw+i]))
+			}
+		}
+		for i := 0; i < int(sn)/cw; i++ {
+			nb.cells = append(nb.cells, ex.copyV(src.B.cells[int(so)/cw+i]))
+		}
+		return Slice{B: nb, Off: ex.c64(0), Len: ex.c64(dn + sn), Cap: ex.c64(dn + sn)}
+	}
 	res := dst
 	if dst.B == nil || dn+sn > dc {
 		// reallocate
